@@ -155,6 +155,11 @@ class Walker:
                 if not (self.at(c, 'chan') and self.at(ar, '<-')): self.fail(n, 'pos', v['pos'], 'offsets of chan and <-')
                 elif v['dir'] == 'Recv' and not ar < c: self.fail(n, 'pos', v['pos'], '<- before chan')
                 elif v['dir'] == 'Send' and not c < ar: self.fail(n, 'pos', v['pos'], 'chan before <-')
+            # the element type comes after `chan` and after the arrow
+            lo = a if v['dir'] is None else max(a, b)
+            ps = []
+            self.positions(dict(self.S[n]['items'])['typ'], v.get('typ'), ps)
+            if ps and isinstance(lo, int) and not min(ps) > lo: self.fail(n, 'typ-after', min(ps), f'> {lo} (element type after chan and <-)')
         elif n in PAIRS:
             o, c, fields = PAIRS[n]
             a, b = v['pos']
@@ -182,9 +187,14 @@ def check_tree(schema, mode, tree, src):
 
 
 def run(chk):
-    interaction_stream(chk)          # correspondence on the interaction corpus (tools/orch/interact.py)
+    progs_i, li = interaction_stream(chk)          # correspondence on the interaction corpus (tools/orch/interact.py)
     rng = random.Random(chk.seed)
     schema = json.load(open(os.path.join(R.WORK, 'ast_schema.json')))
+    for t_, l_ in li.items():
+        k_, v_ = outcome(l_)
+        if k_ != 'ok': continue
+        for (field, got, want, near) in check_tree(schema, 'file', v_, t_)[:3]:
+            chk.oracle_fail('pos:' + field, 'file', t_, {'field': field, 'value': got, 'text_there': near}, want, 'a position does not name the lexeme it stands for / is not ordered or nested as required')
     n = 800 if chk.tier == 'quick' else 4000
     k = 2 if chk.tier == 'quick' else 4
     chk.rule = ('accepted inputs: %d generated programs x %d random layouts with comments (multi-byte characters in identifiers, strings and comments before the checked tokens, tabs, CR LF, multi-line raw strings and comments), all corpus snippets, 1-3 token mutants, token soup and the 19 exhaustive context streams (every accepted one is checked); '
